@@ -66,11 +66,17 @@ let op_dissect f =
   | DErr c -> Printf.sprintf "dissect %d -777 0 out=0" (int_of_n c)
   | DOk (l, cnt) -> Printf.sprintf "dissect 0 %d %d%s out=0" (int_of_z cnt) (List.length l) (put_items l)
 
+(* bigreq <stp> <nb> then groups <N> <klen> <vlen|-1>: the list as lengths *)
+let big_lens f i : (z * z option) list =
+  let g = (Array.length f - i) / 3 in
+  List.concat (List.init g (fun j ->
+    let nn = int_of_string f.(i + 3 * j) and kl = int_of_string f.(i + 3 * j + 1) and vl = int_of_string f.(i + 3 * j + 2) in
+    let it = (z_of_int kl, if vl < 0 then None else Some (z_of_int vl)) in
+    List.init nn (fun _ -> it)))
+
 let op_bigreq f =
   let nb = bool_of_field f.(2) in
-  let nn = int_of_string f.(3) and kl = int_of_string f.(4) and vl = int_of_string f.(5) in
-  let it = (z_of_int kl, if vl < 0 then None else Some (z_of_int vl)) in
-  match chars_required_len nb (List.init nn (fun _ -> it)) with
+  match chars_required_len nb (big_lens f 3) with
   | ZErr c -> Printf.sprintf "bigreq %d -" (int_of_n c)
   | ZOk r -> Printf.sprintf "bigreq 0 %d" (int_of_z r)
 
@@ -93,13 +99,12 @@ let op_spec_expect f =
   let nb = bool_of_field f.(1) and n = int_of_string f.(2) in
   let l = roundtrip_expect nb (items_of f 3 n) in
   Printf.sprintf "%d%s" (List.length l) (put_items l)
-(* spec_sumwraps <nb> <N> <klen> <vlen|-1> -> <D10 shape?> <true total> *)
-let op_spec_sumwraps f =
+(* spec_total <nb> then groups <N> <klen> <vlen|-1> -> <every item passes the per-item guard?> <total_size>
+   (the vocabulary of the C17 size theorems, evaluated on a list given by its lengths) *)
+let op_spec_total f =
   let nb = bool_of_field f.(1) in
-  let nn = int_of_string f.(2) and kl = int_of_string f.(3) and vl = int_of_string f.(4) in
-  let it = (z_of_int kl, if vl < 0 then None else Some (z_of_int vl)) in
-  let ls = List.init nn (fun _ -> it) in
-  Printf.sprintf "%s %d" (b2s (sum_wraps nb ls)) (int_of_z (total_size nb ls))
+  let ls = big_lens f 2 in
+  Printf.sprintf "%s %d" (b2s (no_item_too_large nb ls)) (int_of_z (total_size nb ls))
 let op_spec_uriref f = b2s (uri_reference_shape (text_of_field_nn f.(1)))
 (* spec_form <unix> <filename> <uri string> -> has the documented form for the class of the name *)
 let op_spec_form f = b2s (uri_form (bool_of_field f.(1)) (text_of_field_nn f.(2)) (text_of_field_nn f.(3)))
@@ -127,7 +132,7 @@ let dispatch (f : string array) : string =
   | "spec_qlegal" -> op_spec_qlegal f
   | "spec_dissect" -> op_spec_dissect f
   | "spec_expect" -> op_spec_expect f
-  | "spec_sumwraps" -> op_spec_sumwraps f
+  | "spec_total" -> op_spec_total f
   | "spec_uriref" -> op_spec_uriref f
   | "spec_form" -> op_spec_form f
   | "spec_class" -> op_spec_class f
